@@ -20,7 +20,7 @@ shared state (link_successor, refcount/retired_at stores, tree removal, publicat
 except through add_write / add_replacement, which can only fail with ShuttingDown (shutdown flag writers and their callers
 are pinned). Not decided: that reads return the latest accepted value on every tier; equality with a reference map.
 """
-DECIDED = ["both deferred-value walkers follow the predecessor chain until a generation with a sector (no iteration bound)", "hash index and ordered index receive the same record for the same key at every publication site", "(a) strict last-writer-wins gate under the bucket guard", "(b) validate -> reserve -> publish; no error after publish",
+DECIDED = ['the value validated is the value published (computed values: patched document, CAS replacement)', "both deferred-value walkers follow the predecessor chain until a generation with a sector (no iteration bound)", "hash index and ordered index receive the same record for the same key at every publication site", "(a) strict last-writer-wins gate under the bucket guard", "(b) validate -> reserve -> publish; no error after publish",
            'writer and readers derive the same extent length for a record (shared with C05.len)',
            'the v1 key allowance applies to format version 1 only']
 NOT_DECIDED = ["(c) reads return the latest accepted value on every tier", "(d) equality with a reference map over all sequences/configurations"]
